@@ -60,6 +60,33 @@ def install(r):
             I.raise_builtin("JSONDecodeError", "invalid json")
         return SVal(json_loads(t))
 
+    @r.ext("dataclasses:fields")
+    def _dc_fields(I, a, k):
+        # dataclasses.fields(cls): read from the real class definitions (MRO order); Field.type is the annotation text when
+        # the defining module has `from __future__ import annotations`, otherwise outside the modelled subset.
+        import ast as _ast
+
+        from pyvc.values import SClass
+        from pyvc.values import Unsupported
+
+        c = a[0]
+        ci = c.ci if isinstance(c, SClass) else I.class_of(c)
+        if ci is None:
+            raise Unsupported("dataclasses.fields of an unknown class")
+        out = []
+        for name, (ann, _default, owner) in I.index.all_fields(ci).items():
+            if isinstance(ann, _ast.Subscript) and _ast.unparse(ann.value).endswith("ClassVar"):
+                continue
+            mod = I.index.modules[owner.module]
+            future = any(isinstance(n, _ast.ImportFrom) and n.module == "__future__" and any(x.name == "annotations" for x in n.names) for n in mod.tree.body)
+            oid = I.st.new_id()
+            flds = {"name": I.ops.lit(name)}
+            if future and ann is not None:
+                flds["type"] = I.ops.lit(_ast.unparse(ann))
+            I.st.objs[oid] = ObjRec("Field", None, flds, {"name": f"Field({name})"})
+            out.append(SObj(oid))
+        return I.ops.new_conc_list(out)
+
     @r.ext("ulid:ULID", "uuid:uuid4")
     def _ulid(I, a, k):
         return I.ops.opaque_str("ulid")
@@ -67,6 +94,10 @@ def install(r):
     @r.ext("logging:getLogger")
     def _get_logger(I, a, k):
         return SOpaque("logger")
+
+    @r.ext("threading:Lock", "threading:RLock")
+    def _lock(I, a, k):
+        return SOpaque("lock")  # single-threaded unit: a lock is an opaque token (concurrency is outside this family's reach)
 
     @r.ext("weakref:ref")
     def _weakref(I, a, k):
